@@ -1,0 +1,17 @@
+//go:build !verif
+
+// Package verifhook provides build-tagged seams for runtime verification.
+// Without the `verif` build tag every function is empty and inlines to
+// nothing.
+package verifhook
+
+// Yield marks a point where another goroutine may be scheduled; the caller
+// may hold locks.
+func Yield(point string) {}
+
+// Pause marks a point where the caller holds no lock of its package and may
+// be delayed.
+func Pause(point string) {}
+
+// Note reports a state transition or counter to the installed monitor.
+func Note(kind string, a, b int64) {}
